@@ -112,6 +112,13 @@ CLAIMED = {
             "field",
             "RFC 7838 rules of the statement as predicates over the observer state; argument "
             "validation; events and their origin.", "7/C24"),
+    'C10': ("catalogue + symbolic step engine comparing open_outbound/inbound_streams with the "
+            "observer's RFC 5.1.2 count after every step; separate limit harnesses with "
+            "MAX_CONCURRENT_STREAMS (current and pending) as solver variables over 0-3 existing "
+            "streams in every state, including reserved (pushed) streams being opened",
+            "count + 1 > limit is decided by the solver for all limit values 0..2^32-1; opening "
+            "sends / received HEADERS are refused iff over the limit in force (acknowledged "
+            "local limit for inbound).", "7/C10"),
 }
 
 NOT_YET = {}
